@@ -172,3 +172,70 @@ def stream_jlog(ctx, shape, case):
         i, l, got, m = bad
         ctx.fail(f'J_log[X{i}, label {l}] is not the logarithmic derivative of F[X{i}] (softmax over the rules times softmax over the '
                  f'edge\'s assignments)', dict(case, config=cfg, block=[i, l]), got, m, tags=['jacobian', 'JLOG', 'value'])
+
+
+def stream_backward(ctx, shape, case, recursive):
+    """compare the reverse-mode derivative computed by SumProduct.backward (autograd through fggs.sum_products, Real semiring,
+    all components chained) with the model Bw.backward: y = J^T y + f and g = Jin^T y, evaluated EXACTLY over Rat at the values the
+    library computed (all nonterminals), for a random cotangent f of the start nonterminal's cells"""
+    import warnings
+    from fractions import Fraction
+    fgg, info = semgen.build(shape, 'real', torch.float64)
+    leaves = []
+    for el in info['TL']:
+        w = fgg.factors[el.name].weights
+        w.physical.requires_grad_(True)
+        leaves.append(w)
+    method = ctx.rng.choice(['fixed-point', 'newton'])
+    try:
+        with warnings.catch_warnings(record=True) as ws:
+            warnings.simplefilter('always')
+            sp = fggs.sum_products(fgg, method=method, semiring=semgen.semiring_of('real', torch.float64), tol=1e-13, kmax=5000)
+        if any('converge' in str(w_.message) for w_ in ws):
+            ctx.count('backward-model.not-converged-skipped')
+            return
+        vals = []
+        for X in info['XL']:
+            v = semgen.dense_list(sp[X])
+            vals.append(v)
+        if not all(math.isfinite(c) for v in vals for c in v):
+            ctx.count('backward-model.infinite-skipped')
+            return
+        S = info['XL'][shape['start']]
+        zd = sp[S].to_dense().reshape(-1)
+        cot_start = [float(ctx.rng.choice([1, 2, -1, 3, 0])) for _ in range(zd.numel())]
+        obj = (zd * torch.tensor(cot_start, dtype=torch.float64)).sum()
+        if not obj.requires_grad:
+            ctx.count('backward-model.constant-skipped')
+            return
+        obj.backward()
+    except Exception as e:  # noqa
+        ctx.count('backward-model.raise-skipped')     # raised failures are reported by the gradient stream of the C03 check
+        return
+    got = []
+    for w in leaves:
+        g = w.physical.grad
+        got += [0.0] * w.to_dense().numel() if g is None else w.nonphysical().reincarnate(g).to_dense().reshape(-1).tolist()
+    # cotangent over ALL nonterminal cells (zero except the start)
+    f = []
+    for i, X in enumerate(info['XL']):
+        n = len(vals[i])
+        f += cot_start if i == shape['start'] else [0.0] * n
+    renc = lambda c: str(Fraction(c))
+    xenc = enc_list(vals, lambda v: 'some ' + enc_list(v, renc))
+    rep = ctx.driver.ask(f"C03.backward {gen.enc_shape(shape, wenc=renc)} {xenc} {enc_list(f, renc)}")
+    t = Toks(rep)
+    y = t.list(lambda: Fraction(t.next()))
+    g = t.list(lambda: Fraction(t.next()))
+    solves = t.next() == 'T'
+    ctx.evaluations += 1
+    cfg = dict(method=method, cotangent=cot_start)
+    if not solves:
+        ctx.count('backward-model.singular-skipped')        # a pivot equal to 1: infinite derivative, outside the model
+        return
+    ctx.count('backward-model.' + ('recursive' if recursive else 'nonrecursive'))
+    scale = max([1.0] + [abs(float(c)) for c in g])
+    tol = (1e-6 if recursive else 1e-10) * scale
+    if len(got) != len(g) or not all(abs(a - float(b)) <= tol for a, b in zip(got, g)):
+        ctx.fail('the gradient computed by SumProduct.backward is not J_in^T y with y = J^T y + f at the computed values (model Bw.backward)',
+                 dict(case, config=cfg), got, [str(c) for c in g], tags=['backward-model', method])
